@@ -1175,6 +1175,10 @@ static void
 fd_rst_close(int fd, bool rst)
 {
 	struct linger lg = { 1, 0 };
+	if (!rst && getenv("C14_NOLINGER")) {
+		close(fd);
+		return;
+	}
 	if (!rst) {
 		// orderly close as the peer sees it (FIN first), but no TIME_WAIT
 		// entry on this side: those would use up the ephemeral ports
@@ -1235,6 +1239,30 @@ typedef struct {
 	const char *proto;
 } redial_ctx;
 
+// Can this machine connect to the raw listener at all right now?  (With the
+// ephemeral ports exhausted connect() fails locally and the dialer's attempts
+// never become visible.)
+static bool
+raw_reachable(rawl *l)
+{
+	int fd;
+	if (l->tran != VF_T_TCP) return true;
+	fd = socket(AF_INET, SOCK_STREAM | SOCK_CLOEXEC, 0);
+	if (fd < 0) return false;
+	struct sockaddr_in sa;
+	memset(&sa, 0, sizeof(sa));
+	sa.sin_family      = AF_INET;
+	sa.sin_addr.s_addr = htonl(INADDR_LOOPBACK);
+	sa.sin_port        = htons(l->port);
+	int rv = connect(fd, (struct sockaddr *) &sa, sizeof(sa));
+	fd_rst_close(fd, true);
+	if (rv != 0) return false;
+	// take our own connection off the accept queue again
+	int q = raw_accept(l, 200);
+	if (q >= 0) close(q);
+	return true;
+}
+
 // Wait for the next connection attempt after the drop at t_drop.
 static int
 wait_attempt(rawl *l, uint64_t t_drop, const redial_ctx *c, const char *cause)
@@ -1261,6 +1289,19 @@ wait_attempt(rawl *l, uint64_t t_drop, const redial_ctx *c, const char *cause)
 			    c->tran, c->proto, c->rmin, c->rmax, (unsigned long long) ms, cause, c->bound, hb_maxgap_ms());
 		}
 		return fd;
+	}
+	if (!raw_reachable(l)) {
+		// not observable: the harness itself cannot connect either
+		vf_stat("redial_unobservable_no_ports", 1);
+		return -1;
+	}
+	if (getenv("C14_DEBUG")) {
+		nng_stat *st;
+		char cmd[128];
+		fprintf(stderr, "DEBUG none: port=%u listening=%d fd=%d\n", l->port, l->listening, l->fd);
+		snprintf(cmd, sizeof(cmd), "ss -tanp | grep ':%u ' >&2", l->port);
+		if (system(cmd)) {}
+		if (nng_stats_get(&st) == 0) { nng_stats_dump(st); nng_stats_free(st); }
 	}
 	snprintf(key, sizeof(key), "C14/redial-none/%s/%s", c->tran, cause);
 	vf_violation(key, "%s %s reconnect min/max %d/%d ms: no connection attempt within %d ms after %s; the dialer is open and was started in the background",
@@ -2010,6 +2051,10 @@ main(int argc, char **argv)
 	evlog = calloc(MAXEV, sizeof(evrec));
 	if (evlog == NULL) vf_harness_fail("calloc");
 	hb_start();
+	if (getenv("C14_DEBUG")) {
+		nng_log_set_logger(nng_stderr_logger);
+		nng_log_set_level(NNG_LOG_DEBUG);
+	}
 	const char *mode = vf_mode[0] ? vf_mode : "events";
 	for (long idx = 0; idx < vf_cases; idx++) {
 		if (!vf_want_case(idx)) continue;
